@@ -97,11 +97,14 @@ def build(rng, *, block_size: int, sector_size: int, nblocks: int, tail_cut_sect
           has_parent: bool = False, locator: bytes | None = None, partial: dict | None = None,
           disk_id: bytes | None = None, physical_sector_size: int = 4096, far_mb: int = 0, stale_offsets: bool = True,
           meta_item_order=None, item_gap: int = 0, creator: str = "vf writer", leave_alloc: bool = False,
-          bat_mb: int | None = None, meta_mb: int | None = None, checksums: bool = True, meta_table_order=None, log_guids=(None, None)):
+          bat_mb: int | None = None, meta_mb: int | None = None, checksums: bool = True, meta_table_order=None, log_guids=(None, None),
+          extra_regions=(), extra_items=()):
     """-> (SparseFile, Layer, meta).
 
     states[i]: 0 not-present, 1 undefined, 2 zero, 3 unmapped, 6 fully present, 7 partially present.
     partial[i] = bytes of per-logical-sector flags (1 = present in this file) for state-7 blocks.
+    extra_regions: [(guid, required 0/1)] region table entries of unknown type (a reader skips them unless required);
+    extra_items: [(guid, data, flags)] metadata items of unknown type (flags: 1 user, 2 virtual disk, 4 required).
     """
     lsec = sector_size // SECTOR  # 512-byte sectors per logical sector
     spb = block_size // sector_size  # logical sectors per block
@@ -198,8 +201,13 @@ def build(rng, *, block_size: int, sector_size: int, nblocks: int, tail_cut_sect
     sf.put(KB64, h1)
     sf.put(2 * KB64, h2)
     regions = [(BAT_GUID, bat_mb * MB, bat_len_mb * MB, 1), (META_GUID, meta_mb * MB, MB, 1)]
+    for j, (g, req) in enumerate(extra_regions):
+        # unknown regions live far behind everything else (1 MiB each, never read by anybody)
+        regions.append((g, ((1 << 40) + j) * MB, MB, req))
     if rng.random() < 0.5:
         regions.reverse()
+    if extra_regions:
+        rng.shuffle(regions)
     rt = region_table(regions, checksum=checksums)
     sf.put(3 * KB64, rt)
     sf.put(4 * KB64, rt)
@@ -215,6 +223,7 @@ def build(rng, *, block_size: int, sector_size: int, nblocks: int, tail_cut_sect
     ]
     if has_parent:
         items.append((PARENT_LOCATOR, locator, 4))
+    items.extend(extra_items)
     if meta_item_order == "shuffle":
         rng.shuffle(items)
     elif meta_item_order == "rev":
